@@ -317,6 +317,18 @@ def method(eng, obj, name, args, kwargs):
             return None
         if name == "copy":
             return YSet(list(obj.items))
+        if name == "update":
+            if eng.wguard() is not True:
+                raise NeedFork(eng.sites(), "set.update under guard")
+            for src in args:
+                for x in eng.iterate(src, concat=True):
+                    m = eng.yset_member(x, obj)
+                    if m is True:
+                        continue
+                    if m is not False:
+                        raise Unsupported("set.update with an element whose membership is symbolic")
+                    obj.items.append((True, x))
+            return None
         raise Unsupported(f"set.{name} on a set with symbolic elements")
     if is_strlike(obj):
         return _str_method(eng, obj, name, args, kwargs)
